@@ -123,3 +123,24 @@ chk("C06", "MKIMG", "exploration",
     "real rdsquashfs as root inside a jail; a recursive snapshot (type, mode, owner, size, content hash, target, mtime, xattrs) of everything outside the unpack root must not change.",
     "<=3 entries per hostile listing; symlink/absolute targets point into the jail so that an escape lands where the snapshot looks.",
     "bounded exhaustive enumeration of hostile directory listings against a filesystem-snapshot oracle", "3/C06")
+
+ENGINES += [
+    dict(name="TARMK", path="vlib/tarmk.py vlib/tarcases.py", serves_properties=["C04", "C07", "C15", "C03"],
+         kind_free_text="own tar writer with byte-level control over the dialect (v7, ustar, GNU, PAX, four sparse formats, xattr encodings) and the semantic model of the "
+                        "archive; validated against Python tarfile and GNU tar"),
+]
+
+chk("C04", "TARMK", "exploration",
+    "Bounded-exhaustive archive families from an own tar writer (dialects x field encodings x boundary lengths/values, four sparse formats x all 16 hole subsets + many-region maps, xattr "
+    "encodings, entry orders, prefixes, skipped records) through the real tar2sqfs: independent decoder == documented model and the image is valid; sqfs2tar output is read back by two "
+    "independent tar implementations (Python tarfile, GNU tar extraction as root) for these images and for all gensquashfs images of <=1/<=2 tree templates x sqfs2tar option sets; "
+    "image->tar->image->tar->image must reach a byte-exact fixpoint.",
+    "Archives of <=3 entries; the model encodes tar2sqfs.1/sqfs2tar.1 only; one open known finding (xattr order never reaches a fixpoint).",
+    "bounded exhaustive enumeration of archives against a reference model and two independent readers", "3/C04")
+chk("C07", "TARMK", "exploration",
+    "Deviation-bounded mutation of valid inputs: every header field of every header of 8 base archives x a value alphabet (typeflag x 256), bad checksums, truncation at every 64th / every offset, "
+    "byte-level edits of the first 1.5 KiB, hand-made PAX records / sparse maps / long-name sizes, corrupted and truncated compressed wrappers, all hard-link graphs on <=3 link entries x orders; "
+    "token-, line- and character-level mutation and every truncation of valid pack, sort and xattr files, keyword swaps, glob lines with missing arguments, bare pack file names, link-line "
+    "graphs. Oracle: terminates; ASan clean; exit 0 => valid image (validator, model for link graphs); exit != 0 => diagnostic and no output file.",
+    "Deviation 1 from valid inputs plus single-byte coverage of small inputs; declared sparse sizes bounded to 4 GiB + 1.",
+    "bounded exhaustive enumeration of deviations from valid inputs against a termination/memory-safety/fail-stop oracle", "3/C07")
